@@ -211,6 +211,8 @@ class SpecIR:
         self.num_det = 0
         self.obs_ids = set()
         self.meas_instr = []      # flattened instruction index of each measurement result
+        self.instr_line_start = []  # for each flattened instruction: index of its first line in `lines`
+        self.meas_line = []       # for each measurement result: index of the line that records it
 
 
 def to_spec(flat, names, nsweep=0, noise=True, with_annotations=True):
@@ -233,7 +235,15 @@ def to_spec(flat, names, nsweep=0, noise=True, with_annotations=True):
             L.append('FLIP %d' % v)
             ir.channels.append(Channel('flip', idx, [(p, [v])], ir.num_meas - 1))
 
+    class _L(list):
+        def append(self, x):
+            if x.split(' ')[0] in ('M', 'MR', 'MPAD', 'RECV'):
+                ir.meas_line.append(len(self))
+            list.append(self, x)
+    L = _L()
+    ir.lines = L
     for idx, ins in enumerate(flat):
+        ir.instr_line_start.append(len(L))
         g = names.get(ins.name)
         nm = g.name
         ts = ins.targets
